@@ -24,7 +24,11 @@ RULE = ("2-3 real threads run short programs under a harness-owned deterministic
         "evaluation of shared cached datasets with different options (each thread gets the value of its own options). "
         "part 'systematic': for a fixed family of program sets ALL schedules with one preemption at any yield point, and "
         "schedules with two preemptions (quick: pairs on a stride of about 1/22 of the run with a seed-dependent offset; "
-        "thorough: every pair for short runs, a 1/90 stride for long ones); part 'random': generated programs x random schedules with up to 6 preemptions. Non-trivial "
+        "thorough: every pair for short runs, a 1/90 stride for long ones); part 'random': generated programs x random schedules with up to 6 preemptions; part 'lifetimes' (no scheduler, "
+        "sequential): main enters/leaves handler blocks while it starts short-lived threads one after the other (joined, so "
+        "thread identifiers are recycled) and hands tasks to long-lived pool workers, every worker program optionally starting "
+        "with inherit(main); oracle: a thread is served according to its own blocks and its own latest inherit() only "
+        "(non-trivial there = an identifier was recycled or a pool worker reused, and some worker inherited). Non-trivial "
         "= at least one preemption was actually taken while the preempted thread was inside traced labrea code; distinct "
         "= distinct (scenario, programs, schedule) hash.")
 ASSUMPTIONS = [
@@ -351,9 +355,180 @@ def random_cases(draw):
     return {"scenario": scenario, "spec": spec, "schedule": sorted(schedule)}
 
 
+# ---- thread lifetimes: short-lived and pooled workers, one after the other (no scheduler: every step is sequential) ----------
+def check_lifetimes(case, ctx):
+    """main runs a program; 'spawn' steps start a thread, run its program to completion and join it (so the next spawn
+    usually gets the same thread identifier); 'task' steps hand a program to a long-lived pool worker. Oracle: a
+    per-thread model (what a thread is served by depends on its own blocks and on its own latest inherit() only)."""
+    import queue
+    before = set(getattr(runtime, "_DEFAULT_HANDLERS", {}))
+    table = getattr(runtime, "_RUNTIMES", None)
+    table_before = dict(table) if isinstance(table, dict) else None
+    types = _types()
+    handlers = {j: (lambda tag: (lambda req: tag))(("h", j)) for j in range(4)}
+    pool = [(Runtime().handle({types[t % 2]: handlers[h % 4] for t, h in ov}) if ov else Runtime(), {t % 2: ("h", h % 4) for t, h in ov})
+            for ov in case["pool"]]
+    main_thread = threading.current_thread()
+    main_model = {"base": {}, "stack": []}
+    labels = set()
+    problems = []
+
+    def current(model):
+        return model["stack"][-1] if model["stack"] else model["base"]
+
+    def run_ops(ops, model, entered, who):
+        for k, op in enumerate(ops):
+            if op[0] == "enter":
+                obj, over = pool[op[1] % len(pool)]
+                obj.__enter__()
+                entered.append(obj)
+                model["stack"].append(over)
+            elif op[0] == "exit":
+                if entered:
+                    entered.pop().__exit__(None, None, None)
+                    model["stack"].pop()
+            elif op[0] == "touch":
+                runtime.current_runtime()
+            elif op[0] == "inherit":
+                if not model["stack"]:
+                    runtime.inherit(main_thread)
+                    model["base"] = dict(current(main_model))
+                    model["inherited"] = True
+            elif op[0] == "run":
+                ti = op[1] % 2
+                try:
+                    got = types[ti]().run()
+                except Exception as e:  # noqa
+                    got = ("raised", type(e).__name__, str(e)[:60])
+                exp = current(model).get(ti, ("default", ti))
+                if got != exp:
+                    problems.append(f"{who} op {k} {op}: request T{ti} served by {got!r} but the thread's own blocks / latest inherit() say {exp!r}")
+
+    workers = {}
+
+    def worker_loop(q, done, model):
+        entered = []
+        while True:
+            ops = q.get()
+            if ops is None:
+                return
+            try:
+                run_ops(ops, model, entered, f"pool worker task {ops}")
+                while entered:
+                    entered.pop().__exit__(None, None, None)
+                    model["stack"].pop()
+            except Exception as e:  # noqa
+                problems.append(f"pool worker raised {e!r}")
+            done.put(1)
+
+    entered_main = []
+    created = []
+    try:
+        for step_i, step in enumerate(case["main"]):
+            if step[0] in ("enter", "exit", "run", "touch"):
+                run_ops([step], main_model, entered_main, "main")
+            elif step[0] == "spawn":
+                model = {"base": {}, "stack": []}
+                err = []
+
+                def prog(ops=step[1], model=model):
+                    entered = []
+                    try:
+                        run_ops(ops, model, entered, f"short-lived thread #{step_i} {ops}")
+                        if not case.get("leave_open"):
+                            while entered:
+                                entered.pop().__exit__(None, None, None)
+                    except Exception as e:  # noqa
+                        err.append(repr(e))
+                t = threading.Thread(target=prog)
+                t.start()
+                t.join()
+                created.append(t)
+                labels.add("short-lived-thread")
+                if len(created) > 1 and any(c.ident == t.ident for c in created[:-1]):
+                    labels.add("thread-identifier-recycled")
+                if model.get("inherited"):
+                    labels.add("inherit")
+                if err:
+                    problems.append(f"short-lived thread raised {err[0]}")
+            elif step[0] == "task":
+                wid = step[1] % 2
+                if wid not in workers:
+                    q, done, model = queue.Queue(), queue.Queue(), {"base": {}, "stack": []}
+                    t = threading.Thread(target=worker_loop, args=(q, done, model), daemon=True)
+                    t.start()
+                    created.append(t)
+                    workers[wid] = (q, done, model, t, [0])
+                q, done, model, t, n = workers[wid]
+                q.put(step[2])
+                done.get(timeout=30)
+                n[0] += 1
+                if n[0] >= 2:
+                    labels.add("pool-worker-reused")
+                if model.get("inherited"):
+                    labels.add("inherit")
+            if problems:
+                break
+    finally:
+        while entered_main:
+            entered_main.pop().__exit__(None, None, None)
+        for q, done, model, t, n in workers.values():
+            q.put(None)
+            t.join(timeout=30)
+        _cleanup(before)
+        if table_before is not None:
+            for k in list(table):
+                if k not in table_before:
+                    table.pop(k, None)
+    if problems:
+        raise Violation("thread-lifetimes", f"pool={case['pool']} main={case['main']}: {problems[0]}")
+    ctx.done(case, bool(labels & {"thread-identifier-recycled", "pool-worker-reused"}) and "inherit" in labels, labels)
+
+
+@st.composite
+def lifetime_cases(draw):
+    pool = [draw(st.lists(st.tuples(st.integers(0, 1), st.integers(0, 3)).map(list), min_size=1, max_size=2)) for _ in range(draw(st.integers(1, 3)))]
+
+    def worker_ops():
+        ops, depth = [], 0
+        if draw(st.integers(0, 2)) > 0:
+            ops.append(["inherit"])
+        for _ in range(draw(st.integers(1, 4))):
+            kind = draw(st.sampled_from(["enter", "exit", "run", "run", "touch"]))
+            if kind == "enter":
+                ops.append(["enter", draw(st.integers(0, 2))]); depth += 1
+            elif kind == "exit":
+                if depth:
+                    ops.append(["exit"]); depth -= 1
+            elif kind == "run":
+                ops.append(["run", draw(st.integers(0, 1))])
+            else:
+                ops.append(["touch"])
+        ops.append(["run", draw(st.integers(0, 1))])
+        return ops
+    main, depth = [], 0
+    for _ in range(draw(st.integers(3, 9))):
+        kind = draw(st.sampled_from(["enter", "enter", "exit", "run", "spawn", "spawn", "task", "task"]))
+        if kind == "enter":
+            main.append(["enter", draw(st.integers(0, 2))]); depth += 1
+        elif kind == "exit":
+            if depth:
+                main.append(["exit"]); depth -= 1
+        elif kind == "run":
+            main.append(["run", draw(st.integers(0, 1))])
+        elif kind == "spawn":
+            main.append(["spawn", worker_ops()])
+        else:
+            main.append(["task", draw(st.integers(0, 1)), worker_ops()])
+    main += [["exit"]] * depth
+    main.append(["spawn", [["run", 0], ["run", 1]]])
+    return {"pool": pool, "main": main, "leave_open": False}
+
+
 NPROC = {"quick": 8, "thorough": 16}
 WALL_CAP = {"quick": 90, "thorough": 1200}
 PARTS = [
     Part("systematic", check, enumerate=enum_systematic, budget={"quick": None, "thorough": None}),
     Part("random", check, strategy=lambda ctx: random_cases(), budget={"quick": 400, "thorough": 2500}),
+    Part("lifetimes", check_lifetimes, strategy=lambda ctx: lifetime_cases(), budget={"quick": 300, "thorough": 2000}),
 ]
